@@ -68,6 +68,8 @@ def alphabet(n, subs, rich=True):
     for a, b in pairs:
         o.append(("bs", a, b))
     o.append(("ps", n - 1))
+    o.append(("bsl", n - 1, 0))          # beam splitter with loss: loss elements must land on the same user modes
+    o.append(("psl", n - 1))
     o.append(("sw", ((0, n - 1), (n - 1, 0))))
     if rich and n >= 3:
         o.append(("sw", ((0, 1), (1, 2), (2, 0))))
@@ -118,6 +120,20 @@ def run_program(n, prog, env, acc, sub_factory=make_sub):
             P.bs(op[1], op[2], reflectivity=env.R2); R.bs(op[1], op[2], env.R2)
         elif k == "ps":
             P.ps(op[1], env.PH[0]); R.ps(op[1], env.PH[0])
+        elif k == "bsl":
+            try:
+                P.bs(op[1], op[2], reflectivity=env.R[1], loss=env.L2, convention="H")
+            except lw.ModeRangeError as e:
+                acc.violation("legal_component_refused", case, {"op": op, "error": repr(e)})
+                return
+            R.bs(op[1], op[2], env.R[1], "H"); R.loss(op[1], env.L2); R.loss(op[2], env.L2)
+        elif k == "psl":
+            try:
+                P.ps(op[1], env.PH[1], loss=env.L[1])
+            except lw.ModeRangeError as e:
+                acc.violation("legal_component_refused", case, {"op": op, "error": repr(e)})
+                return
+            R.ps(op[1], env.PH[1]); R.loss(op[1], env.L[1])
         elif k == "sw":
             P.mode_swaps(dict(op[1])); R.swaps(dict(op[1]))
         elif k == "her":
